@@ -19,7 +19,7 @@ from . import storeutil
 
 WORLD = 'L'
 
-KINDS = ['ctx_new', 'ctx_drop', 'gc', 'lat_force', 'lat_direct', 'ctx_copy', 'dict_rt', 'literal_rt',
+KINDS = ['ctx_new', 'ctx_drop', 'gc', 'lat_force', 'lat_direct', 'orphan_new', 'ctx_copy', 'dict_rt', 'literal_rt',
          'q_lat_slice',
          'q_int', 'q_ext', 'q_get', 'q_lat_get', 'q_lat_idx', 'q_lat_top', 'q_lat_call',
          'q_neighbors', 'q_links', 'q_labels',
@@ -27,17 +27,17 @@ KINDS = ['ctx_new', 'ctx_drop', 'gc', 'lat_force', 'lat_direct', 'ctx_copy', 'di
          'pk_ctx', 'pk_lat', 'pk_foreign', 'set_order']
 
 DISTURB = ['pk_ctx', 'pk_lat', 'pk_foreign', 'dict_rt', 'literal_rt', 'ctx_copy', 'gc', 'ctx_drop',
-           'set_order', 'lat_direct', 'q_lat_slice']
+           'set_order', 'lat_direct', 'q_lat_slice', 'orphan_new']
 
 FOCUS = {
     'C01': {'q_int': 8, 'q_ext': 8, 'q_get': 1, 'pk_foreign': 4, 'pk_ctx': 2, 'h_open': 1, 'h_step': 2},
     'C02': {'q_get': 6, 'q_lat_get': 6, 'q_lat_idx': 2, 'q_lat_slice': 2, 'lat_direct': 1, 'q_lat_top': 1, 'q_lat_call': 5,
             'lat_force': 2, 'dict_rt': 3, 'pk_lat': 3, 'pk_foreign': 2, 'literal_rt': 1},
-    'C05': {'q_neighbors': 7, 'q_links': 5, 'lat_direct': 1, 'h_open': 4, 'h_step': 10, 'h_close': 1, 'h_abandon': 1,
+    'C05': {'orphan_new': 1, 'q_neighbors': 7, 'q_links': 5, 'lat_direct': 1, 'h_open': 4, 'h_step': 10, 'h_close': 1, 'h_abandon': 1,
             'lat_force': 2, 'dict_rt': 2, 'pk_lat': 2, 'pk_foreign': 2},
-    'C09': {'lat_direct': 1, 'h_open': 6, 'h_step': 14, 'h_close': 2, 'h_abandon': 2, 'lat_force': 2, 'set_order': 2,
+    'C09': {'orphan_new': 1, 'lat_direct': 1, 'h_open': 6, 'h_step': 14, 'h_close': 2, 'h_abandon': 2, 'lat_force': 2, 'set_order': 2,
             'pk_lat': 2, 'dict_rt': 1, 'gc': 1},
-    'C10': {'lat_force': 4, 'lat_direct': 3, 'dict_rt': 4, 'pk_lat': 4, 'pk_ctx': 2, 'pk_foreign': 3, 'ctx_copy': 2,
+    'C10': {'orphan_new': 2, 'lat_force': 4, 'lat_direct': 3, 'dict_rt': 4, 'pk_lat': 4, 'pk_ctx': 2, 'pk_foreign': 3, 'ctx_copy': 2,
             'literal_rt': 2, 'q_labels': 4, 'ctx_drop': 1, 'gc': 1, 'set_order': 2},
 }
 
@@ -99,6 +99,9 @@ def gen_table(rng, n, m):
 
 def gen_shape(rng, cfg):
     r = rng.random()
+    if r > 1 - cfg.get('p_medium', 0):
+        # neither small nor one of the special wide shapes
+        return rng.randint(8, 16), rng.randint(5, 9)
     if r < cfg['p_wide']:
         big = rng.choice([33, 61, 63, 64, 65, 66, 70, 100, 127, 128, 129, 130])
         small = rng.randint(1, 4)
@@ -129,7 +132,10 @@ def _config(rng, tier, focus):
     for k in DISTURB:
         if not enabled[k]:
             w[k] = 0
-    return {'n_slots': rng.randint(1, 5), 'n_events': rng.randint(5, 40 if tier == 'quick' else 90),
+    long_run = rng.random() < 0.02
+    return {'n_slots': rng.randint(1, 5),
+            'n_events': rng.randint(150, 300) if long_run else rng.randint(5, 40 if tier == 'quick' else 90),
+            'p_medium': rng.choice([0.0, 0.05, 0.1, 0.3]),
             'p_wide': rng.choice([0.0, 0.1, 0.2, 0.5]),
             'max_n': rng.randint(3, 7), 'max_m': rng.randint(3, 7),
             'p_reuse_labels': rng.choice([0.3, 0.6, 0.9]),
@@ -204,6 +210,8 @@ def generate(rng, seed, run, tier, focus='C01', xmode=False):
             ev = [kind]
         elif kind in ('lat_force', 'lat_direct', 'ctx_copy', 'literal_rt'):
             ev = [kind, s]
+        elif kind == 'orphan_new':
+            ev = [kind, s, rng.choice(['copy', 'direct', 'fromdict', 'pickle'])]
         elif kind == 'q_lat_slice':
             a, b = sorted((rng.randrange(nc + 1), rng.randrange(nc + 1)))
             ev = [kind, s, w, rng.choice([None, a]), rng.choice([None, b])]
@@ -380,6 +388,7 @@ class Live:
         self.handles = {}
         self.graveyard = []   # (slot objects of dropped/replaced contexts still referenced by handles)
         self.focus = self.cfg.get('focus')
+        self.orphans = []     # concepts kept by the caller after it dropped their context and lattice
         self.argbuf = []      # one list object re-used (and edited in place) for every other argument
         self.argcount = 0
 
@@ -425,14 +434,72 @@ class Live:
                 continue
             full = (s in touched)
             self.audit_slot(sl, s, index, full)
-        for sl in self.graveyard:
-            pass
+        if self.orphans:
+            self.audit_orphans()
         st = []
         for sl in self.slots:
             st.append(None if sl is None else
                       (sl.li, tuple(sl.fca.rows), len(sl.ctxs), [l[2] for l in sl.lats]))
         hs = sorted((h, v['kind'], len(v['got']), v['done']) for h, v in self.handles.items())
         self.rec.state(canon([st, hs]))
+
+    def keep_orphans(self, sl):
+        """The caller keeps only the concepts of one lattice (no reference to the lattice or context)."""
+        if not sl.lats or len(sl.fca.concepts()) > 64:
+            return
+        ms = self.members(sl.lats[-1][0])
+        if len(ms) != len(sl.fca.concepts()):
+            return
+        shell = Slot(sl.li, sl.objs, sl.props, sl.fca)     # model + label maps only, no library objects
+        self.orphans.append((shell, ms, sl.lats[-1][2]))
+        del self.orphans[:-2]
+        self.rec.probe('orphan_concepts_kept')
+
+    def audit_orphans(self):
+        rec = self.rec
+        for shell, ms, origin in self.orphans:
+            f = shell.fca
+            cs = f.concepts()
+            table = {}
+            for c in ms:
+                table.setdefault(shell.omask(c.extent), c)
+            if set(table) != {e for e, _ in cs}:
+                continue
+            atoms = [table[cs[a][0]] for a in f.atoms()]
+            for c in ms:
+                e = shell.omask(c.extent)
+                k = f.index_of(e)
+                if rec.want('C10'):
+                    wa = [a for a in atoms if shell.omask(a.extent) & e == shell.omask(a.extent)]
+                    ga = call(lambda c=c: tuple(c.atoms))
+                    rec.check('C10.atoms_below',
+                              ga.ok and len(ga.value) == len(wa) and all(any(g is w for w in wa) for g in ga.value),
+                              lambda: f'atoms of kept concept {c.extent!r} after its lattice was dropped: {ga.text()} (via {origin})')
+                    lab = call(lambda c=c: (tuple(c.objects), tuple(c.properties)))
+                    wo = tuple(shell.objs[o] for o in range(f.n) if f.object_concept(o) == k)
+                    wp = tuple(shell.props[p] for p in range(f.m) if f.attribute_concept(p) == k)
+                    rec.check('C10.object_label_owner', lab.ok and lab.value == (wo, wp),
+                              lambda: f'labels of kept concept {c.extent!r} after its lattice was dropped: {lab.text()} model {(wo, wp)!r}')
+                if rec.want('C05'):
+                    for attr, cov in (('upper_neighbors', f.upper_covers(k)), ('lower_neighbors', f.lower_covers(k))):
+                        got = call(lambda c=c, attr=attr: list(getattr(c, attr)))
+                        want = [table[cs[j][0]] for j in cov]
+                        rec.check(f'C05.{attr[:5]}_eq_covers',
+                                  got.ok and len(got.value) == len(want) and all(any(g is w for w in want) for g in got.value),
+                                  lambda: f'{attr} of kept concept {c.extent!r} after its lattice was dropped: {got.text()}')
+            if rec.want('C09') and ms:
+                c = ms[len(ms) // 2]
+                for direction in ('up', 'down'):
+                    want = self.traversal_want(shell, table, direction, [c])
+                    got = call(lambda: list(c.upset() if direction == 'up' else c.downset()))
+                    self.check_traversal(shell, direction, got.value if got.ok else None, want, final=True,
+                                         what=f'{direction}set of kept concept {c.extent!r} after its lattice was dropped',
+                                         err=got)
+            if rec.want('C02') and ms:
+                c = ms[-1]
+                back = call(lambda: c.lattice[c.extent] if c.extent else c.lattice(c.intent))
+                rec.check('C02.same_member', back.ok and back.value is c,
+                          lambda: f'concept.lattice lookup of kept concept {c.extent!r}: {back.text()}')
 
     def audit_slot(self, sl, s, index, full):
         rec = self.rec
@@ -805,7 +872,9 @@ class Live:
             self.graveyard.append(sl)
             if not any(h['slot'] is sl for h in self.handles.values()):
                 self.graveyard.pop()
+            self.keep_orphans(sl)
             self.slots[s] = None
+            del sl, ctx
             gc.collect()
             rec.fault('drop+gc')
             rec.log('ok')
@@ -817,6 +886,28 @@ class Live:
             self.need(out.ok, 'lattice_constructs', lambda: out.text())
             sl.add_lat(out.value, 'lazy')
             rec.log(f'{len(self.members(out.value))} had={had}')
+            return (s,)
+        if kind == 'orphan_new':
+            # a lattice whose concepts are the only thing the caller keeps: it is never queried while alive
+            if len(f.concepts()) > 64:
+                rec.log('noop')
+                return ()
+            how = ev[2]
+            if how == 'copy':
+                out = call(lambda: list(ctx.copy().lattice))
+            elif how == 'direct':
+                out = call(lambda: list(C.lattices.Lattice(ctx)))
+            elif how == 'fromdict':
+                out = call(lambda: list(C.Context.fromdict(ctx.todict()).lattice))
+            else:
+                out = call(lambda: list(pickle.loads(pickle.dumps(ctx.copy().lattice))))
+            self.need(out.ok, 'lattice_constructs', lambda: f'building a lattice ({how}) raised {out.text()}')
+            shell = Slot(sl.li, sl.objs, sl.props, f)
+            self.orphans.append((shell, out.value, f'orphan({how})'))
+            del self.orphans[:-2]
+            gc.collect()
+            rec.fault('lattice_dropped_concepts_kept')
+            rec.log(str(len(out.value)))
             return (s,)
         if kind == 'lat_direct':
             # the documented constructor: another lattice on the same Context instance
